@@ -41,6 +41,8 @@ struct Seen {
     slice_refs: u64,
     foreign_slice_panics: u64,
     ord_pairs: u64,
+    format_specs: u64,
+    shared_storage_comparisons: u64,
     multibyte_inputs: u64,
 }
 
@@ -82,6 +84,19 @@ fn check_value(bs: &ByteString, s: &str, how: &str, seen: &mut Seen) -> Result<(
     if bs.to_string() != s || format!("{bs}") != s || format!("{bs:?}") != format!("{s:?}") {
         return fail("C20:value:display-differs", format!("{how}: Display/Debug/to_string differ for {s:?}"));
     }
+    // Display / Debug honour the format specification exactly as str does (width, fill, alignment, precision)
+    let specs: [(String, String); 6] = [
+        (format!("{bs:>8}"), format!("{s:>8}")),
+        (format!("{bs:*^7}"), format!("{s:*^7}")),
+        (format!("{bs:.2}"), format!("{s:.2}")),
+        (format!("{bs:<5.1}|"), format!("{s:<5.1}|")),
+        (format!("{bs:12?}"), format!("{s:12?}")),
+        (format!("{bs:#?}"), format!("{s:#?}")),
+    ];
+    seen.format_specs += specs.len() as u64;
+    if let Some((g, w)) = specs.iter().find(|(g, w)| g != w) {
+        return fail("C20:value:display-ignores-format-spec", format!("{how}: formatting {s:?} with a width/fill/precision specification gives {g:?}, str gives {w:?}"));
+    }
     if String::from(bs.clone()) != s || bs.clone().into_bytes().as_ref() != s.as_bytes() {
         return fail("C20:value:into-differs", format!("{how}: String::from / into_bytes differ for {s:?}"));
     }
@@ -103,6 +118,17 @@ fn check_splits(bs: &ByteString, s: &str, depth: u32, seen: &mut Seen) -> Result
                 seen.splits_ok += 1;
                 check_value(&ga, &wa, "split_at.0", seen)?;
                 check_value(&gb, &wb, "split_at.1", seen)?;
+                // values that share one buffer compare by content like any others
+                seen.shared_storage_comparisons += 4;
+                if (ga == *bs) != (wa == s) || (*bs == gb) != (s == wb) || (ga == gb) != (wa == wb) || (ga == s) != (wa == s) || (h(&ga) == h(bs)) != (h(wa.as_str()) == h(s)) {
+                    return fail(
+                        "C20:eq:shared-storage-compares-wrongly",
+                        format!("split_at({mid}) of {s:?}: comparing the halves {wa:?} / {wb:?} with each other or with the whole disagrees with str equality"),
+                    );
+                }
+                if ga.cmp(bs) != wa.as_str().cmp(s) || gb.cmp(&ga) != wb.cmp(&wa) {
+                    return fail("C20:ord:differs-from-str", format!("split_at({mid}) of {s:?}: ordering of the halves / the whole differs from str"));
+                }
                 if depth > 0 {
                     check_splits(&ga, &wa, depth - 1, seen)?;
                     check_splits(&gb, &wb, depth - 1, seen)?;
@@ -146,6 +172,13 @@ fn check_slices(bs: &ByteString, s: &str, seen: &mut Seen) -> Result<(), Fail> {
             };
             seen.slice_refs += 1;
             check_value(&got, &s[i..j], "slice_ref", seen)?;
+            seen.shared_storage_comparisons += 2;
+            if (got == *bs) != (&s[i..j] == s) || (*bs == got) != (s == &s[i..j]) || (got == view) != (&s[i..j] == s) {
+                return fail(
+                    "C20:eq:shared-storage-compares-wrongly",
+                    format!("slice_ref(&self[{i}..{j}]) of {s:?} compared with the value it was cut from disagrees with str equality"),
+                );
+            }
         }
     }
     // a foreign slice with equal content is not a sub-slice: documented panic
@@ -382,4 +415,6 @@ pub fn run(args: &Args, rep: &mut Report) {
     rep.add("obs_slice_refs", seen.slice_refs);
     rep.add("obs_foreign_slice_panics", seen.foreign_slice_panics);
     rep.add("obs_ord_pairs", seen.ord_pairs);
+    rep.add("obs_format_spec_comparisons", seen.format_specs);
+    rep.add("obs_shared_storage_comparisons", seen.shared_storage_comparisons);
 }
